@@ -33,7 +33,7 @@ pub fn prop() -> Prop {
     .random(
         "operations",
         check_operation,
-        |t| if t == Tier::Quick { 12_000 } else { 300_000 },
+        |t| if t == Tier::Quick { 6_000 } else { 300_000 },
         |t| if t == Tier::Quick { 700 } else { 1000 },
     )
     .case_timeout(60)
@@ -61,7 +61,7 @@ impl XorShift {
 
 /// Decodes the smith input from the choice stream. Returns (bytes, label).
 pub fn smith_bytes(c: &mut Choices, max_len: usize) -> (Vec<u8>, &'static str) {
-    let mode = c.weighted(&[25, 30, 15, 15, 15]);
+    let mode = c.weighted(&[20, 15, 10, 10, 10, 35]);
     if mode == 0 {
         // the remaining choice bytes as they are (libFuzzer-like: shrinks well)
         return (c.rest().to_vec(), "raw");
@@ -86,15 +86,39 @@ pub fn smith_bytes(c: &mut Choices, max_len: usize) -> (Vec<u8>, &'static str) {
             let every = c.range(2, 64) as u64;
             ((0..len).map(|_| if (rng.next() >> 24) % every == 0 { (rng.next() >> 32) as u8 } else { base }).collect(), "sparse")
         }
-        _ => {
+        4 => {
             let blen = c.range(1, 64);
             let block: Vec<u8> = (0..blen).map(|_| c.byte()).collect();
             ((0..len).map(|i| block[i % block.len()]).collect(), "repeated-block")
+        }
+        _ => {
+            // biased towards small byte values: small counts and short names, so that the input
+            // lasts until the fragment and operation phases of the builder
+            let p_small = c.range(40, 90) as u64;
+            let small_max = c.pick(&[1u64, 2, 3, 7]);
+            (
+                (0..len)
+                    .map(|_| {
+                        let r = rng.next() >> 16;
+                        if r % 100 < p_small {
+                            ((r >> 8) % (small_max + 1)) as u8
+                        } else {
+                            (r >> 24) as u8
+                        }
+                    })
+                    .collect(),
+                "small-biased",
+            )
         }
     }
 }
 
 fn panic_sig(entry: &str, msg: &str, loc: &str) -> String {
+    // `todo!()` in DocumentBuilder::stack_ty (field of union / custom scalar / input type): the
+    // message carries the type name
+    if msg.starts_with("not yet implemented") && msg.contains("need to implement for union, scalar") {
+        return format!("C32|panic|{}|stack_ty-todo", entry);
+    }
     format!("C32|panic|{}|{}", entry, normalise_panic(msg, loc))
 }
 
@@ -210,6 +234,43 @@ pub fn check_document(bytes: &[u8], ctx: &mut Ctx) -> Outcome {
 /// A schema valid by construction, with an explicit schema definition (apollo-smith only generates
 /// operations when the document has one).
 pub fn gen_schema_text(c: &mut Choices, tier: Tier) -> String {
+    gen_schema(c, tier).0
+}
+
+/// Does some input object reach itself through input-object-typed fields (any wrapping)?
+fn has_input_object_cycle(doc: &crate::refmodel::ast::Document) -> bool {
+    use std::collections::{BTreeMap, BTreeSet};
+    let mut edges: BTreeMap<&str, BTreeSet<&str>> = BTreeMap::new();
+    for d in &doc.defs {
+        if let Definition::Type(t) = d {
+            if t.kind == TypeKind::InputObject {
+                let e = edges.entry(t.name.as_str()).or_default();
+                for f in &t.input_fields {
+                    e.insert(f.ty.inner_name());
+                }
+            }
+        }
+    }
+    let names: Vec<&str> = edges.keys().copied().collect();
+    for start in names {
+        let mut seen: BTreeSet<&str> = BTreeSet::new();
+        let mut todo: Vec<&str> = edges[start].iter().copied().collect();
+        while let Some(n) = todo.pop() {
+            if n == start {
+                return true;
+            }
+            if seen.insert(n) {
+                if let Some(next) = edges.get(n) {
+                    todo.extend(next.iter().copied());
+                }
+            }
+        }
+    }
+    false
+}
+
+/// (schema text, some input object refers to itself)
+pub fn gen_schema(c: &mut Choices, tier: Tier) -> (String, bool) {
     let opts = gs::Opts { max_types: if tier == Tier::Quick { 3 } else { 4 }, ..gs::Opts::default() };
     let mut doc = gs::schema(c, &opts);
     let has_schema_def = doc.defs.iter().any(|d| matches!(d, Definition::Schema(s) if !s.is_ext));
@@ -225,7 +286,8 @@ pub fn gen_schema_text(c: &mut Choices, tier: Tier) -> String {
             doc.defs.push(Definition::Schema(SchemaDef { is_ext: false, description: None, directives: vec![], roots }));
         }
     }
-    printer::print_document(&doc)
+    let cyclic = has_input_object_cycle(&doc);
+    (printer::print_document(&doc), cyclic)
 }
 
 fn build_operation(schema_text: &str, data: &[u8]) -> Result<Result<Option<String>, String>, (String, String)> {
@@ -253,8 +315,15 @@ fn build_operation(schema_text: &str, data: &[u8]) -> Result<Result<Option<Strin
 
 pub fn check_operation(bytes: &[u8], ctx: &mut Ctx) -> Outcome {
     let mut c = Choices::new(bytes);
-    let schema_text = gen_schema_text(&mut c, ctx.tier);
+    let (schema_text, input_cycle) = gen_schema(&mut c, ctx.tier);
     let (data, label) = smith_bytes(&mut c, 4096);
+    if input_cycle && !ctx.strict {
+        // known finding C32|crash: input_value_for_type never terminates on a self-referential
+        // input object; a dead worker per case would cost most of the run, so these schemas are
+        // counted and skipped in the search (the saved repro is still replayed on every run)
+        ctx.class("schema/self-referential-input-object");
+        return ctx.skip("schema has a self-referential input object (known finding: unbounded recursion in input_value_for_type)");
+    }
     ctx.class(format!("input/{}", label));
     ctx.set_sample(format!("# smith input: {} bytes {}\n{}", data.len(), truncate(&hex(&data), 200), truncate(&schema_text, 1200)));
     let schema = match Schema::parse_and_validate(schema_text.as_str(), "schema.graphql") {
@@ -331,4 +400,35 @@ pub fn check_operation(bytes: &[u8], ctx: &mut Ctx) -> Outcome {
             ctx.pick_failure(fails)
         }
     }
+}
+
+/// `verif aux --prop C32 idx <stage> <seed> <index> [--thorough]`: print the case the runner
+/// generates and the verdict (development aid).
+pub fn aux(args: &[String]) -> i32 {
+    crate::runner::install_panic_hook();
+    let Some(pos) = args.iter().position(|a| a == "idx") else {
+        eprintln!("usage: aux --prop C32 idx <stage> <seed> <index>");
+        return 4;
+    };
+    let stage: usize = args[pos + 1].parse().expect("stage");
+    let seed: u64 = args[pos + 2].parse().expect("seed");
+    let index: u64 = args[pos + 3].parse().expect("index");
+    let tier = if args.iter().any(|a| a == "--thorough") { Tier::Thorough } else { Tier::Quick };
+    let max_len = match (stage, tier) {
+        (0, Tier::Quick) => 600,
+        (0, _) => 900,
+        (_, Tier::Quick) => 700,
+        _ => 1000,
+    };
+    let bytes = crate::runner::gen_case(seed, "C32", stage, index, max_len);
+    println!("hex={}", hex(&bytes));
+    if args.iter().any(|a| a == "--no-run") {
+        return 0;
+    }
+    let mut ctx = Ctx::new(tier, true);
+    let o = if stage == 0 { check_document(&bytes, &mut ctx) } else { check_operation(&bytes, &mut ctx) };
+    println!("{}", ctx.sample.clone().unwrap_or_default());
+    println!("classes={:?} nontrivial={}", ctx.classes, ctx.nontrivial);
+    println!("{:?}", o);
+    0
 }
